@@ -379,10 +379,28 @@ def catalogue_case(args):
         b = {k: v for k, v in norm(back).items() if k != 'overall'}
         if a != b:
             bad.append(f'iterations.txt parses back differently: {b} vs in-memory {a}')
-        # repeat call = same
+        if [k for k in back] != [k for k in full if k != 'overall']:
+            bad.append(f'read_iterations lists the restarts in the order {list(back)}, iterations() in {[k for k in full if k != "overall"]}')
+        # repeat call = same (entries, their order -- read_ET_data walks the restarts in dictionary order -- and the summary)
         again = aurel.iterations(p, skip_last=False, verbose=False)
         if {k: v for k, v in norm(again).items() if k != 'overall'} != a:
             bad.append('second call of iterations() differs from the first')
+        third = aurel.iterations(p, skip_last=False, verbose=False)
+        for lab, res in (('second', again), ('third', third)):
+            if list(res) != list(full):
+                bad.append(f'{lab} call of iterations() lists the entries in the order {list(res)}, the fresh scan in {list(full)}')
+            if norm(res).get('overall') != norm(full).get('overall'):
+                bad.append(f"{lab} call of iterations(): 'overall' is {norm(res).get('overall')}, the fresh scan gave {norm(full).get('overall')}")
+        # the summary denotes exactly the iterations on disk (uniform strides; the non-uniform case is the recorded finding)
+        if all(len(set(np.diff(its))) <= 1 for _, its, _ in rs):
+            alls = sorted({i for _, its, _ in rs for i in its})
+            for rl in (0, 1):
+                ov = norm(full).get('overall', {}).get(f'rl = {rl}')
+                den = set()
+                for seg in ov or []:
+                    den |= set(range(seg[0], seg[1] + 1, seg[2])) if isinstance(seg, list) and len(seg) == 3 else set(seg if isinstance(seg, list) else [seg])
+                if ov is not None and not den >= set(alls):
+                    bad.append(f"'overall' rl={rl}: {ov} does not cover the iterations on disk {alls}")
         # incremental = fresh: new directory with the last restart added later
         if len(rs) > 1:
             root2 = tempfile.mkdtemp(prefix='c18b_')
@@ -405,6 +423,12 @@ def catalogue_case(args):
                 inc = aurel.iterations(p2, skip_last=False, verbose=False)
                 if {k: v for k, v in norm(inc).items() if k != 'overall'} != a:
                     bad.append(f'incremental cataloguing differs from a fresh scan: {norm(inc)} vs {a}')
+                inc2 = aurel.iterations(p2, skip_last=False, verbose=False)
+                for lab, res in (('incremental', inc), ('call after the incremental one', inc2)):
+                    if list(res) != list(full):
+                        bad.append(f'{lab}: entries in the order {list(res)}, the fresh scan in {list(full)}')
+                    if norm(res).get('overall') != norm(full).get('overall'):
+                        bad.append(f"{lab}: 'overall' is {norm(res).get('overall')}, the fresh scan gave {norm(full).get('overall')}")
             finally:
                 shutil.rmtree(root2, ignore_errors=True)
         # get_content: scan vs cached JSON vs overwrite
@@ -503,45 +527,9 @@ def module_frame_obligation(R):
     directly or through a local alias `x = NAME` (flow-insensitive, one level -- deeper aliasing is covered dynamically by
     the module-state snapshot of the unknown-group scenario)."""
     import aurel.reading as Rm
+    from engine.modframe import module_frame
     t0 = time.time()
-    tree = ast.parse(inspect.getsource(Rm))
-    modstate = {k for k, v in vars(Rm).items() if isinstance(v, (dict, list, set)) and not k.startswith('__')}
-    bad = []
-    nfun = 0
-    for fn in [n for n in ast.walk(tree) if isinstance(n, (ast.FunctionDef, ast.AsyncFunctionDef))]:
-        nfun += 1
-        params = {a.arg for a in fn.args.args + fn.args.kwonlyargs} | ({fn.args.vararg.arg} if fn.args.vararg else set()) | ({fn.args.kwarg.arg} if fn.args.kwarg else set())
-        stored = {n.id for n in ast.walk(fn) if isinstance(n, ast.Name) and isinstance(n.ctx, ast.Store)}
-        shadow = params | {n for n in stored}          # a local of the same name shadows the module-level one
-        tracked = {m for m in modstate if m not in shadow}
-        alias = {}
-        for n in ast.walk(fn):
-            if isinstance(n, ast.Global):
-                bad.append(f'{fn.name}: global {", ".join(n.names)}')
-            if isinstance(n, ast.Assign) and isinstance(n.value, ast.Name) and n.value.id in tracked:
-                for t in n.targets:
-                    if isinstance(t, ast.Name):
-                        alias[t.id] = n.value.id
-        names = tracked | set(alias)
-
-        def root(e):
-            return e.id if isinstance(e, ast.Name) and e.id in names else None
-        for n in ast.walk(fn):
-            tgt = []
-            if isinstance(n, ast.Assign):
-                tgt = n.targets
-            elif isinstance(n, (ast.AugAssign, ast.AnnAssign)):
-                tgt = [n.target]
-            elif isinstance(n, ast.Delete):
-                tgt = n.targets
-            for t in tgt:
-                for sub in ast.walk(t):
-                    if isinstance(sub, (ast.Subscript, ast.Attribute)) and root(sub.value):
-                        bad.append(f'{fn.name}: line {n.lineno} writes into module-level {alias.get(root(sub.value), root(sub.value))}')
-                if isinstance(n, ast.AugAssign) and isinstance(t, ast.Name) and t.id in alias:
-                    bad.append(f'{fn.name}: line {n.lineno} augmented assignment to an alias of module-level {alias[t.id]}')
-            if isinstance(n, ast.Call) and isinstance(n.func, ast.Attribute) and n.func.attr in MUTATORS and root(n.func.value):
-                bad.append(f'{fn.name}: line {n.lineno} calls .{n.func.attr}() on module-level {alias.get(root(n.func.value), root(n.func.value))}')
+    bad, nfun, modstate = module_frame(Rm)
     R.ob('reading.*:frame -- no function writes module-level state (result depends on the arguments and the directory only)', 'get_content',
          'refuted' if bad else 'discharged', 'ast-frame', time.time() - t0, '; '.join(bad[:4]) or f'{nfun} functions, module-level containers {sorted(modstate)}',
          bad[:6] or None, replay=lambda o: (lambda ug: (bool(ug), '; '.join(ug[:3]) or 'the unknown-group scenario shows no stale state'))(unknown_group_case()))
@@ -556,6 +544,10 @@ def catalogue_cases(tier):
     cases = []
     for i, (nm, lay) in enumerate(itertools.product(names, layouts)):
         cases.append((nm, lay, patterns[i % len(patterns)]))
+    # many restarts (two-digit restart numbers, contiguous and with gaps)
+    many = [(r, [r * 40 + 8 * k for k in range(5)], r) for r in range(12)]
+    gaps = [(0, [0, 4, 8], 0), (2, [12, 16], 1), (10, [20, 24, 28], 2), (11, [32, 36], 3), (101, [40, 44], 4)]
+    cases += [('sim', layouts[1], many), ('restart_run', layouts[2], gaps), ('sim', layouts[0], gaps)]
     if tier != 'quick':
         for nm, lay, pat in itertools.product(names[:3], layouts, patterns):
             cases.append((nm, lay, pat))
@@ -579,7 +571,7 @@ def catalogue_obligations(R, tier, known_nonuniform):
     nonuni = [b for b in bad if 'NONUNIFORM' in b]
     other = [b for b in bad if 'NONUNIFORM' not in b]
     R.bounded.append(dict(function='iterations / read_iterations / get_content on generated directories',
-                          bound=f'{len(cases)} directories: 5 simulation names (incl. catalogue words), 4 layouts, 4 restart/iteration patterns (single, strided, 3 restarts with single-iteration restarts, mixed strides), 2 levels; call sequences: fresh, repeat, incremental with skip_last, get_content scan/cached/overwrite'))
+                          bound=f'{len(cases)} directories: 5 simulation names (incl. catalogue words), 4 layouts, restart/iteration patterns (single, strided, 3 restarts with single-iteration restarts, mixed strides, 12 contiguous restarts, restart numbers with gaps 0,2,10,11,101), 2 levels; call sequences: fresh, second and third call, incremental with skip_last and the call after it, get_content scan/cached/overwrite; entries, their order and the overall summary compared'))
     R.ob('reading.catalogue:reports == what is on disk; text parses back; repeat and incremental calls == fresh scan', 'iterations',
          'refuted' if other else 'bounded-ok', 'bounded-native', time.time() - t0, '; '.join(other[:3]), other[:8] or None,
          bounded=f'{len(cases)} generated directories', replay=lambda o: (bool(other), '; '.join(other[:3])))
@@ -597,6 +589,6 @@ def run(R):
     dispatch_obligations(R)
     module_frame_obligation(R)
     catalogue_obligations(R, R.tier, None)
-    R.notes.append('parameters() (.par parser) and the "overall" summary of collect_overall_iterations are not under contract: the property clauses decided here are per-restart catalogue entries, the variable-to-file map, and key / file-name parsing')
+    R.notes.append('parameters() (.par parser) is not under contract; the "overall" summary of collect_overall_iterations is only checked for stability across calls and for covering the iterations on disk (bounded, generated directories), not against a contract of its own')
     R.extra['explanation'] = ('regex determinism criterion on the real patterns + adversarial enumeration; catalogue line dispatch decided by automaton products over the stated '
                               'alphabets; directory scans bounded on generated simulations')
